@@ -175,12 +175,55 @@ def parse_send(stoks, cmd_def, where):
     return dict(target=ACTORS[target], ctor=ctor, wiring=wiring, mode=mode, bound=bound)
 
 
+FILE_TOKS = []      # all tokens of raftdata.rs (set by translate): helper functions are looked up here
+
+
+def expand_decode_helper(stmts, where):
+    """the extract-function form of the ConfigFullValue arm:
+         let cmd = Self::F(&key, &value, X)?;
+       with   fn F(key: &[u8], value: &[u8], L: Option<u64>) -> anyhow::Result<ConfigRaftCmd> {
+                  <the four statements of DECODE_FULL, with `key` / `value` for `&key` / `&value`>
+                  Ok(ConfigRaftCmd::SetFullValue { key, value: config_value, last_id[: L] })  }
+       is rewritten into the literal block + `let cmd = ConfigRaftCmd::SetFullValue {..}`; any other helper is refused."""
+    if not stmts:
+        return stmts
+    s = stmts[0]
+    if s[:5] != ["let", "cmd", "=", "Self", "::"] or len(s) < 8 or s[6] != "(" or s[-1] != "?" or match_close(s, 6) != len(s) - 2:
+        return stmts
+    fname = s[5]
+    args = [j(a) for a in split_top(s[7:-2], ",") if a]
+    if len(args) != 3 or args[0] != "& key" or args[1] != "& value":
+        raise Refuse("%s: helper call `%s` with unexpected arguments" % (where, j(s)))
+    try:
+        params, ret, body = fn_body(FILE_TOKS, fname)
+    except Refuse:
+        raise Refuse("%s: helper %s not found" % (where, fname))
+    ps = [a for a in split_top(params, ",") if a]
+    if len(ps) != 3 or [a[0] for a in ps[:2]] != ["key", "value"] or j(ps[0][1:]) != ": & [ u8 ]" or j(ps[1][1:]) != ": & [ u8 ]":
+        raise Refuse("%s: helper %s has unexpected parameters `%s`" % (where, fname, j(params)))
+    lid = ps[2][0]
+    hs = split_top(body, ";")
+    htail = j(hs[-1])
+    hst = [j(x) for x in hs[:-1]]
+    norm = [x.replace("from_utf8_lossy ( key )", "from_utf8_lossy ( & key )").replace("from_bytes ( value )", "from_bytes ( & value )") for x in hst]
+    want_tail = ["Ok ( ConfigRaftCmd :: SetFullValue { key , value : config_value , last_id : %s , } )" % lid,
+                 "Ok ( ConfigRaftCmd :: SetFullValue { key , value : config_value , last_id : %s } )" % lid,
+                 "Ok ( ConfigRaftCmd :: SetFullValue { key , value : config_value , %s , } )" % lid,
+                 "Ok ( ConfigRaftCmd :: SetFullValue { key , value : config_value , %s } )" % lid]
+    if norm != DECODE_FULL or htail not in want_tail or (lid != "last_id" and " last_id : " not in htail):
+        raise Refuse("%s: helper %s is not the literal decode block + SetFullValue" % (where, fname))
+    block = [lex(x) for x in DECODE_FULL]
+    cmd = lex("let cmd = ConfigRaftCmd :: SetFullValue { key , value : config_value , last_id : %s }" % args[2])
+    return block + [cmd] + stmts[1:]
+
+
 def parse_arm(name, ptoks, btoks, path):
     where = "%s/%s" % (path, name)
     kind, binds = parse_pattern(ptoks, where)
     stmts = split_top(btoks, ";")
     tail = stmts[-1]
     stmts = [s for s in stmts[:-1]]
+    stmts = expand_decode_helper(stmts, where)
     if any(len(s) == 0 for s in stmts):
         raise Refuse("%s: empty statement" % where)
     prep = "PNone"
@@ -295,6 +338,7 @@ def row_coq(r):
 def translate(repo):
     path = os.path.join(repo, "src/raft/filestore/raftdata.rs")
     toks = lex(open(path).read())
+    FILE_TOKS[:] = toks
     enum = parse_enum_variants(repo)
     names = [n for n, _, _ in enum]
     if sorted(names) != sorted(VARIANTS):
